@@ -87,6 +87,7 @@ class ConclusionSelector(LogicalBinaryOperator, ABC):
         """
         A new evaluation concludes again what a previous evaluation has concluded.
         """
+        super()._reset_evaluation_state_()
         for seen_set in self.concluded_before.values():
             seen_set.clear()
         self._conclusion_.clear()
